@@ -61,6 +61,9 @@ type c20In struct {
 	ServerMinor int `json:"server_minor,omitempty"`
 	// the initiator connected before, disconnected cleanly (the responder saw it go), and connects again
 	Reconnected bool `json:"reconnected,omitempty"`
+	// the responder registered this protocol together with others in one AddStreamHandlers call
+	// (this one first): 0 alone | n with n others after it
+	RegisteredWith int `json:"registered_with,omitempty"`
 }
 type c20Obs struct {
 	ConnectOK    bool `json:"connect_ok"`
@@ -156,7 +159,12 @@ func c20Run(t *testing.T, in c20In, rng *vrng) (obs c20Obs) {
 	}}
 	sdesc := desc
 	sdesc.Version = fmt.Sprintf("1.%d.0", in.ServerMinor)
-	server.AddStreamHandlers(sdesc)
+	all := []p2p.StreamDesc{sdesc}
+	for k := 0; k < in.RegisteredWith; k++ {
+		all = append(all, p2p.StreamDesc{Name: fmt.Sprintf("other%d", k), Version: fmt.Sprintf("%d.0.0", 2+k),
+			Handler: func(context.Context, p2p.Peer, p2p.Stream) error { return nil }})
+	}
+	server.AddStreamHandlers(all...)
 	info, _ := (&peer.AddrInfo{ID: server.host.ID(), Addrs: server.host.Addrs()}).MarshalJSON()
 	ctx, cancel := context.WithTimeout(context.Background(), 5*time.Second+time.Duration(in.DelayMs)*time.Millisecond)
 	defer cancel()
@@ -471,6 +479,12 @@ func TestVerifC20(t *testing.T) {
 	for i, d := range []int{0, 40} {
 		r := roles[(i+2)%len(roles)]
 		in := c20In{Tag: "reincarnated", Gated: d > 0, DelayMs: d, Streams: 2, ServerRole: r[0], ClientRole: r[1], Reincarnated: true, FirstAfter: 0}
+		out.emitGuarded(in, c20Obs{Panic: true}, func() any { return c20Run(t, in, rng) })
+	}
+	// the protocol was registered together with others in one call
+	for i, n := range []int{1, 3} {
+		r := roles[(i+2)%len(roles)]
+		in := c20In{Tag: "registered-with-others", Streams: 2, ServerRole: r[0], ClientRole: r[1], RegisteredWith: n}
 		out.emitGuarded(in, c20Obs{Panic: true}, func() any { return c20Run(t, in, rng) })
 	}
 	// the responder is one or more minor versions ahead of the initiator (rolling upgrade)
